@@ -53,6 +53,22 @@ func (r *Runner) runHistory(it *spec.Item) {
 		for _, in := range menu {
 			o := pkg.New("uint32", -1, false).Step(obs.Req{Input: in, Want: want})
 			base[in] = ser(o)
+			if len(in) > 1000 {
+				// very long inputs (C13): no panic, offsets within the rune sequence
+				c := &caseCtx{it, gshow, v.Name, "", in[:8] + "…", false, false}
+				r.eval("C13", true, fmt.Sprintf("%d|long|%s|%d", it.Idx, v.Name, len(in)), func() string {
+					return fmt.Sprintf("%s [%s] on an input of %d runes: accepted=%v", gshow, spec.VariantName(v.Name), len([]rune(in)), o.OK)
+				})
+				if o.Panic != "" {
+					r.mismatch(c, "C13", "panic-long-input", "nil or a parse error", fmt.Sprintf("%d runes: %s", len([]rune(in)), o.Panic), fmt.Sprint(len(in)))
+				}
+				for _, t := range o.Toks {
+					if t.B < 0 || t.B > t.E || t.E > len([]rune(in)) {
+						r.mismatch(c, "C13", "token-bounds-long-input", "offsets within the input", fmt.Sprint(t), fmt.Sprint(len(in)))
+						break
+					}
+				}
+			}
 			// tie the reference observation to the reference interpreter (short inputs only)
 			if len(in) <= 64 {
 				ref := interp.Parse(g.Rules[0].Name, []rune(in))
